@@ -18,6 +18,7 @@ LEVEL_NOTE = 'Trusted: the ledger model; single-column series; stamps non-decrea
 RULE = ('random publication histories: 2-8 versions over 3-30 observation dates (deliberately crossing 16 stored rows), non-decreasing stamps with repeats, values in {0..3, NaN} '
         'so repeats and reverts are common, partial versions, dates first appearing late; after every merge reads at T before/on/between/after each stamp for what in {-1, 0}; '
         'non-trivial = (>=2 versions share a stamp and >16 stored rows) or a revert to an earlier value; distinct = canonical hash of the history')
+RULE_ALSO = "; added by the coverage audit and round 8: read times as ISO text / yyyymmdd / date, observation dates after the stamps, stamped and plain versions mixed in one merge, stamps taken from the clock ('now') bracketed by clock readings; the store's index name and column labels are part of read_does_not_change_store"
 ASSUMPTIONS = ['versions are merged in non-decreasing stamp order (as the statement requires)', 'single-column series only (multi-column frames are outside the statement)',
                'idempotence is claimed for re-merging the most recent version or a version whose stamp is unique in the history']
 T0 = datetime.datetime(2020, 1, 1)
